@@ -182,7 +182,7 @@ Fixpoint res_keys (xs : list (N * ext)) : list N :=
   | ix :: r => (match x_has (snd ix) with HTrue => if is_ok (x_get (snd ix)) then [x_name (snd ix)] else [] | _ => [] end) ++ res_keys r
   end.
 
-Definition rn (st : step) : N := if rfails (snd st) then 1 else 0.
+Definition rn (st : step) : N := if rerrs (snd st) then 1 else 0.
 Definition block (ph : phase) (n : N) (mid : list event) (xs : list (N * ext)) : list event :=
   starts ph xs ++ mid ++ fins ph n xs.
 Fixpoint fields_log (k : N) (fields : list step) (xs : list (N * ext)) : list event :=
@@ -234,7 +234,7 @@ Proof.
   unfold block. cbn [app].
   unfold rn. destruct fb as [id rb]. cbn [snd].
   destruct rb; rewrite run_finish_eq, bind_ret_eq, prepend_ret; unfold prepend;
-    cbn [rfails fst snd]; rewrite ?N.add_0_r; reflexivity.
+    cbn [rerrs fst snd]; rewrite ?N.add_0_r; reflexivity.
 Qed.
 
 Lemma exec_fields_eq : forall fields k xs,
